@@ -168,6 +168,7 @@ func (t *Torrent) markPieceComplete(pi int) error {
 			"Invariant violation: piece marked complete twice: piece %d in %s", pi, t.Digest().Hex())
 	}
 	t.pieces[pi].markComplete()
+	verifPoint("inc_num_complete")
 	t.numComplete.Inc()
 	return nil
 }
@@ -235,6 +236,7 @@ func (t *Torrent) WritePiece(src storage.PieceReader, pi int) error {
 		return fmt.Errorf("write piece: %s", err)
 	}
 
+	verifPoint("load_num_complete")
 	if int(t.numComplete.Load()) == len(t.pieces) {
 		// Multiple threads may attempt to move the download file to cache, however
 		// only one will succeed while the others will receive (and ignore) file exist
@@ -243,6 +245,7 @@ func (t *Torrent) WritePiece(src storage.PieceReader, pi int) error {
 		if err != nil && !os.IsExist(err) {
 			return fmt.Errorf("download completed but failed to move file to cache directory: %s", err)
 		}
+		verifPoint("set_committed")
 		t.committed.Store(true)
 	}
 
